@@ -152,6 +152,8 @@ pub trait TyObj: Sync + Send {
     /// `sink`; stops early when `sink` returns false. Err((word, budget_exhausted)) if a call panicked.
     #[allow(clippy::too_many_arguments)]
     fn sweep_kernel(&self, low: &[u8], high_api: &[u8], entry: crate::sweep::Entry, from: u64, to: u64, rng: &mut crate::simrng::SimRng, sink: &mut dyn FnMut(u64, u64, u32, u32) -> bool) -> Result<(), (u64, bool)>;
+    /// one call of a sweep entry point (constructor included) on an ordinary scripted RNG; the result is dropped
+    fn one_call(&self, low: &[u8], high_api: &[u8], entry: crate::sweep::Entry, rng: &mut crate::simrng::SimRng);
     /// fill a slice of `len` elements (initialised from `init`), returning (result, element bytes)
     /// `front` guard elements before and 2 after the filled sub-slice must keep their initial contents; the third
     /// component says whether they did
@@ -307,6 +309,17 @@ where
             }
         }
         Ok(())
+    }
+    fn one_call(&self, low: &[u8], high_api: &[u8], entry: crate::sweep::Entry, rng: &mut crate::simrng::SimRng) {
+        use crate::sweep::Entry;
+        let (l, h) = (T::from_le(low), T::from_le(high_api));
+        let _ = match entry {
+            Entry::UniInc => Uniform::new_inclusive(l, h).sample(rng),
+            Entry::UniExc => Uniform::new(l, h).sample(rng),
+            Entry::SingleInc => <T::Sampler as UniformSampler>::sample_single_inclusive(l, h, rng),
+            Entry::SingleExc => <T::Sampler as UniformSampler>::sample_single(l, h, rng),
+            Entry::GenRangeInc => rng.gen_range(l..=h),
+        };
     }
     fn fill(&self, len: usize, init: u8, front: usize, via: FillVia, rng: &mut crate::simrng::SimRng, dynamic: bool) -> (Result<(), ()>, Vec<Vec<u8>>, bool) {
         let initv = T::from_le(&vec![init; T::BYTES]);
